@@ -23,7 +23,7 @@ def decode_template(b):
             i += 3 + ln
         else:
             # placeholder opcode: 0b11xxxxxx ; flag bits announce option bytes that follow
-            out.append("{}")
+            out.append("\u2039\u203a")
             i += 1
             if c & 0x01:   # flags: u32
                 i += 4
@@ -55,4 +55,11 @@ def arguments_text(prov, f, operand):
     for k, v in sl.consts:
         if k == "str" and v not in texts:
             texts.append(v)
+        elif k == "bytes":
+            try:
+                tx = decode_template(bytes.fromhex(v))
+            except Exception:
+                tx = "<undecodable template>"
+            if tx not in texts:
+                texts.append(tx)
     return " | ".join(sorted(set(texts)))
